@@ -127,7 +127,7 @@ Definition spec_transpose (sh : shape) (a b : Z) (op : gather_op) : Prop :=
    out[..., w, ..., k] = in[..., w*step + k, ...]; size and step positive (the op's own documentation) *)
 Definition legal_unfold (sh : shape) (dimension size step : Z) : Prop :=
   exists d, wrap_dim (length sh) dimension = Some d /\
-    (0 < size)%Z /\ (0 < step)%Z /\ (size <= Z.of_nat (nth d sh 0%nat))%Z.
+    (0 < size)%Z /\ (0 < step)%Z /\ (size <= Z.of_nat (nth d sh 1%nat))%Z.   (* a 0-d tensor counts as one axis of size 1 *)
 
 Definition spec_unfold (sh : shape) (dimension size step : Z) (op : gather_op) : Prop :=
   exists d pre L post,
